@@ -168,6 +168,11 @@ impl ConnectionLimits {
     pub(crate) fn verif_counts(&self) -> (usize, usize) {
         (self.incoming_connections.len(), self.outgoing_connections.len())
     }
+
+    /// Read accessor for the verification adapter: the installed (max incoming, max outgoing).
+    pub(crate) fn verif_config(&self) -> (Option<usize>, Option<usize>) {
+        (self.config.max_incoming_connections, self.config.max_outgoing_connections)
+    }
 }
 
 #[cfg(test)]
